@@ -83,6 +83,20 @@ CHECKS.update({
     ),
 })
 
+CHECKS.update({
+    "C10": (
+        "Hypothesis-generated DAG programs x flag assignments; flag model + complex-step reference with stop-gradients + metamorphic replacement of constant tensors by ndarrays",
+        "Generated search over programs and assignments of constant/non-constant flags and dtypes to leaves and "
+        "constant=None/True/False to operations (incl. flagged view ops): the flag of every tensor is compared with an "
+        "explicit model, constants must hold no gradient, all other gradients must equal the reference with "
+        "stop-gradients, and replacing constant tensor leaves by plain arrays must leave every gradient bit-identical. "
+        "Exploration only.",
+        "Flag-mixed view chains (non-constant view of constant memory) are compared leniently where the two documented "
+        "readings differ; in-place targets' flags are asserted by C04/C05.",
+        "DESIGN.md §3 C10",
+    ),
+})
+
 NOT_YET = {
 }
 
